@@ -3,6 +3,7 @@ package rules
 import (
 	"fmt"
 	"go/ast"
+	"go/constant"
 	"go/parser"
 	"go/token"
 	"go/types"
@@ -2116,4 +2117,130 @@ func solid(path *Path, style Style) {
 		r.Fail("E6.skip-bounds-cover", key, c.Pos(pos), bad+": pixels of the uncovered part that lie inside the image are not painted")
 	}
 	r.Floor("E6.skip-bounds-selftest", 3)
+}
+
+// E6FillRuleMap: what the rasterizer's two scanner modes make of each enumerator of canvas.FillRule.
+func E6FillRuleMap(c *core.Ctx, r *core.Report) {
+	r.Rule("E6.fill-rule-map", "Rasterizer.RenderPath: the scanner has two modes, SetWinding(true) = non-zero and SetWinding(false) = even-odd. The argument of the SetWinding call that derives from style.FillRule is evaluated for every enumerator of canvas.FillRule (comparisons of the rule with an enumerator are decided, the rest by boolean evaluation; a boolean local is followed to its one assignment): NonZero gives true, EvenOdd gives false, and any further enumerator — which neither mode can express — is accepted only if the fill outline is first reduced by a call that receives the rule (`fill.Settle(style.FillRule)`)")
+	p := c.MustPkg("renderers/rasterizer")
+	info := p.TypesInfo
+	fd := core.MustFuncDecl(p, "Rasterizer.RenderPath")
+	scope := c.MustPkg("").Types.Scope()
+	tn, _ := scope.Lookup("FillRule").(*types.TypeName)
+	if tn == nil {
+		panic(core.Infra("canvas.FillRule not found"))
+	}
+	var enums []*types.Const
+	for _, name := range scope.Names() {
+		if k, ok := scope.Lookup(name).(*types.Const); ok && types.Identical(k.Type(), tn.Type()) {
+			enums = append(enums, k)
+		}
+	}
+	sort.Slice(enums, func(i, j int) bool { return constant.Compare(enums[i].Val(), token.LSS, enums[j].Val()) })
+	isRule := func(e ast.Expr) bool {
+		tv, ok := info.Types[e]
+		return ok && tv.Value == nil && types.Identical(tv.Type, tn.Type())
+	}
+	// a call that receives the rule as an argument: the outline is reduced according to the rule
+	delegated := false
+	ast.Inspect(fd.Body, func(n ast.Node) bool {
+		if call, ok := n.(*ast.CallExpr); ok {
+			for _, a := range call.Args {
+				if isRule(core.Unparen(a)) {
+					delegated = true
+				}
+			}
+		}
+		return true
+	})
+	single := func(id *ast.Ident) ast.Expr {
+		o := core.ObjOf(info, id)
+		var rhs ast.Expr
+		cnt := 0
+		ast.Inspect(fd.Body, func(n ast.Node) bool {
+			if as, ok := n.(*ast.AssignStmt); ok && len(as.Lhs) == len(as.Rhs) {
+				for i, l := range as.Lhs {
+					if lid, ok := l.(*ast.Ident); ok && core.ObjOf(info, lid) == o {
+						rhs = as.Rhs[i]
+						cnt++
+					}
+				}
+			}
+			return true
+		})
+		if cnt == 1 {
+			return rhs
+		}
+		return nil
+	}
+	n := 0
+	ast.Inspect(fd.Body, func(nd ast.Node) bool {
+		call, ok := nd.(*ast.CallExpr)
+		if !ok || len(call.Args) != 1 {
+			return true
+		}
+		se, ok := call.Fun.(*ast.SelectorExpr)
+		if !ok || se.Sel.Name != "SetWinding" {
+			return true
+		}
+		arg := core.Unparen(call.Args[0])
+		if id, ok := arg.(*ast.Ident); ok && id.Name != "true" && id.Name != "false" {
+			if rhs := single(id); rhs != nil {
+				arg = core.Unparen(rhs)
+			}
+		}
+		mentions := false
+		ast.Inspect(arg, func(m ast.Node) bool {
+			if e, ok := m.(ast.Expr); ok && isRule(e) {
+				mentions = true
+			}
+			return true
+		})
+		if !mentions {
+			return true
+		}
+		n++
+		for _, k := range enums {
+			env := func(e ast.Expr) tri {
+				be, ok := e.(*ast.BinaryExpr)
+				if !ok || (be.Op != token.EQL && be.Op != token.NEQ) {
+					return tUnknown
+				}
+				var other ast.Expr
+				switch {
+				case isRule(core.Unparen(be.X)):
+					other = be.Y
+				case isRule(core.Unparen(be.Y)):
+					other = be.X
+				default:
+					return tUnknown
+				}
+				tv, ok := info.Types[other]
+				if !ok || tv.Value == nil {
+					return tUnknown
+				}
+				return triOf(constant.Compare(tv.Value, token.EQL, k.Val()) == (be.Op == token.EQL))
+			}
+			v := evalBool(info, arg, env)
+			key := "renderers/rasterizer.Rasterizer.RenderPath|" + k.Name()
+			mode := map[tri]string{tTrue: "non-zero", tFalse: "even-odd", tUnknown: "undecided"}[v]
+			switch {
+			case v == tUnknown:
+				r.Fail("E6.fill-rule-map", key, c.Pos(call.Pos()), fmt.Sprintf("the winding mode `%s` could not be evaluated for FillRule == %s", c.Src(call.Args[0]), k.Name()))
+			case k.Name() == "NonZero" || k.Name() == "EvenOdd":
+				if (k.Name() == "NonZero") == (v == tTrue) {
+					r.OK("E6.fill-rule-map", key, c.Pos(call.Pos()), k.Name()+" is scanned in "+mode+" mode")
+				} else {
+					r.Fail("E6.fill-rule-map", key, c.Pos(call.Pos()), fmt.Sprintf("a path filled with the %s rule is scanned in %s mode (`%s`)", k.Name(), mode, c.Src(call)))
+				}
+			case delegated:
+				r.OK("E6.fill-rule-map", key, c.Pos(call.Pos()), k.Name()+": the outline is reduced by a call that receives the rule, then scanned in "+mode+" mode")
+			default:
+				r.Fail("E6.fill-rule-map", key, c.Pos(call.Pos()), fmt.Sprintf("a path filled with the %s rule is scanned in %s mode (`%s`) and no call receives the rule to reduce the outline first: the region painted is that of the %s rule", k.Name(), mode, c.Src(call), mode))
+			}
+		}
+		return true
+	})
+	r.Count("E6.fill-rule-sites", n)
+	r.Floor("E6.fill-rule-sites", 1)
 }
